@@ -1,7 +1,8 @@
 (* str::to_lowercase / to_uppercase on UTF-8 bytes.  ASCII letters are mapped directly; every other character is looked up, by its UTF-8
    byte sequence, in the tables regenerated from the toolchain's std (GenUnicase: char::to_lowercase / to_uppercase for every scalar
-   value).  One context-dependent rule of str::to_lowercase is NOT modelled: a capital sigma at the end of a word becomes the final
-   sigma; the table maps it to the ordinary small sigma, and the generators keep U+03A3 out of compared cases. *)
+   value).  The one context-dependent rule of str::to_lowercase is modelled too: a capital sigma becomes the final small sigma when -
+   skipping case-ignorable characters - a cased character precedes it and none follows; the two character classes are regenerated from
+   the toolchain as ranges of code points (GenUnicase.ci_ranges, cased_ranges). *)
 From Rws Require Import Str Utf8 GenUnicase.
 Open Scope N_scope.
 
@@ -9,13 +10,39 @@ Open Scope N_scope.
 Definition seq_len (c : N) : nat := if N.ltb c 128 then 1%nat else if N.ltb c 224 then 2%nat else if N.ltb c 240 then 3%nat else 4%nat.
 Definition tab_find (tab : list (list N * list N)) (k : list N) : list N :=
   match find (fun e => beqs (fst e) k) tab with Some e => snd e | None => k end.
-Fixpoint map_case (fuel : nat) (tab : list (list N * list N)) (asc : N -> N) (s : list N) : list N :=
+(* the code point of one UTF-8 sequence *)
+Definition cp (k : list N) : N :=
+  match k with
+  | [a] => a
+  | [a; b] => (a - 192) * 64 + (b - 128)
+  | [a; b; c] => (a - 224) * 4096 + (b - 128) * 64 + (c - 128)
+  | [a; b; c; d] => (a - 240) * 262144 + (b - 128) * 4096 + (c - 128) * 64 + (d - 128)
+  | _ => 0
+  end.
+Definition in_ranges (t : list (N * N)) (x : N) : bool := existsb (fun r => N.leb (fst r) x && N.leb x (snd r)) t.
+Fixpoint chars (fuel : nat) (s : list N) : list (list N) :=
+  match fuel with O => [] | S f =>
+  match s with [] => [] | c :: _ => let n := seq_len c in firstn n s :: chars f (skipn n s) end end.
+(* std's case_ignorable_then_cased: skip the case-ignorable characters, the next one decides *)
+Fixpoint ci_then_cased (cs : list (list N)) : bool :=
+  match cs with
+  | [] => false
+  | k :: r => if in_ranges ci_ranges (cp k) then ci_then_cased r else in_ranges cased_ranges (cp k)
+  end.
+Definition SIGMA : list N := [206; 163].
+Definition SIGMA_FINAL : list N := [207; 130].
+Definition SIGMA_SMALL : list N := [207; 131].
+(* sig: apply the sigma rule (lower-casing only); before: the characters already passed, nearest first *)
+Fixpoint map_case (fuel : nat) (sig : bool) (tab : list (list N * list N)) (asc : N -> N) (before : list (list N)) (s : list N) : list N :=
   match fuel with O => s | S f =>
   match s with
   | [] => []
-  | c :: r => if N.ltb c 128 then asc c :: map_case f tab asc r
-              else let n := seq_len c in tab_find tab (firstn n s) ++ map_case f tab asc (skipn n s)
+  | c :: r => if N.ltb c 128 then asc c :: map_case f sig tab asc ([c] :: before) r
+              else let n := seq_len c in let k := firstn n s in let rest := skipn n s in
+                   (if sig && beqs k SIGMA
+                    then (if ci_then_cased before && negb (ci_then_cased (chars (length rest) rest)) then SIGMA_FINAL else SIGMA_SMALL)
+                    else tab_find tab k) ++ map_case f sig tab asc (k :: before) rest
   end end.
 (* strings of ASCII bytes take the direct route (the two routes agree on them: map_case_ascii below) *)
-Definition ulower (s : list N) : list N := if is_ascii s then lower s else map_case (length s) lower_tab to_ascii_lower s.
-Definition uupper (s : list N) : list N := if is_ascii s then upper s else map_case (length s) upper_tab to_ascii_upper s.
+Definition ulower (s : list N) : list N := if is_ascii s then lower s else map_case (length s) true lower_tab to_ascii_lower [] s.
+Definition uupper (s : list N) : list N := if is_ascii s then upper s else map_case (length s) false upper_tab to_ascii_upper [] s.
